@@ -9,6 +9,10 @@ ids = [json.loads(l)['id'] for l in (V / 'properties.jsonl').read_text().splitli
 TECH = 'contract-based deductive verification: own VC generator (pyvc) over the real .py/.pyx source, sidecar contracts, z3/cvc5'
 
 CLAIMED = {
+	'C20': dict(
+		text='AdvancedIndexingMixin.__getitem__ is verified for every index kind (int, all eight None/int slice shapes, ill-typed slice fields, step 0, integer arrays of seven dtypes, boolean masks, float arrays, lists, the empty list) against an abstract sequence: result item j = item norm(index[j]) (Python negative-index rule), slices select range(*indices(n)), masks select the non-zero positions in order, IndexError/TypeError/ValueError exactly as a list/NumPy would, and the caller\'s index array is unchanged; _check_index, _getitem_slice, _getitem_bool_array separately. The NumPy contract for np.add carries the fixed width of the output dtype: on the original tree the int8/int16/int32 instances failed (wrap-around), the bounded run replayed it (130 signatures, int8 index -1), a fix: commit widened the copy, and all instances now discharge. The concrete hooks of SignatureList / ConcatenatedSignatureArray are verified to refine the abstract ones; the remaining container code is bounded only (plain-list differential, labelled).',
+		note='Trusted: NumPy/slice contracts listed in the evidence; len < 2^63. Bounded only: _getitem_int_array, contiguous slice fast path, construction, HDF5-backed collections, del/insert, equality.',
+		design='3/C20'),
 	'C10': dict(
 		text='find_matches is verified for every forest, genome list and distance vector: each genome index is filed under exactly the taxon its own lineage and distance select (the defined least-covering-index function of C03), indices in reference order, no match lost (dict-of-lists loop invariant). The consensus step and the strict branch of classify are covered by a BOUNDED stand-in, not a proof: the real classify(strict=True) is run under every permutation of the reference genomes on forests of <= 6 taxa and compared with a set-based specification (consensus = deepest taxon comparable with every matched taxon, warning iff a matched taxon lies strictly below it, primary match = nearest genome at or below it, failure iff no common root). That run exposed the order dependence of the original consensus_taxon (repaired by a fix: commit).',
 		note='Trusted: C03 base. consensus_taxon / strict classify: bounded only (labelled; a contract is written but its forest obligations exceed the solver budget).',
